@@ -203,6 +203,7 @@ func c03Scenarios(tier string) []*Scenario {
 		out = append(out, c03Seq([]string{"[nc]", "n"}, 2, x, Bounds{2, -1, 0}))
 	}
 	out = append(out, c03Seq([]string{"n", "c"}, 2, xNone, Bounds{4, -1, 1}))
+	out = append(out, c03Seq([]string{"n"}, 2, xNone, Bounds{-1, -1, -1}), c03Seq([]string{"[nc]"}, 2, xNone, Bounds{-1, -1, -1}))
 	out = append(out, c03Gate("c", 2, Bounds{3, -1, 0}), c03Gate("n", 2, Bounds{3, -1, 0}), c03Gate("[cn]", 3, Bounds{3, -1, 0}), c03Gate("[cc]", 3, Bounds{3, -1, 0}))
 	return out
 }
